@@ -6,3 +6,4 @@ CONSTANTS
   NSorted = 3
   MaxSlot = 3
 INVARIANTS Converged ObsOK
+PROPERTIES Sticky
